@@ -2,8 +2,6 @@ package sim
 
 // Scenario payload stubs (replaced as scenarios are implemented).
 
-type NavCase struct{}
-type VisitCase struct{}
 type DictCase struct{}
 type ReuseCase struct{}
 type DMTCase struct{}
